@@ -65,10 +65,50 @@ def scan_function(f):
                 if isinstance(fn.value, ast.Name) and (fn.value.id, fn.attr) in VARYING_ATTR_CALLS:
                     found.add(("%s.%s" % (fn.value.id, fn.attr), VARYING_ATTR_CALLS[(fn.value.id, fn.attr)]))
                 callees.add(fn.attr)
-        if isinstance(n, (ast.For, ast.comprehension)):
-            it = n.iter
-            if isinstance(it, ast.Set) or (isinstance(it, ast.Call) and isinstance(it.func, ast.Name) and it.func.id in ("set", "frozenset")):
-                found.add(("iteration over a set", "set iteration order is unspecified and hash dependent"))
+    # set-valued expressions, followed through local names (flow-insensitive, conservative): a set is harmless as long as
+    # only membership is asked; its iteration order (for / comprehension / list() / tuple() / iter() / next() / pop() / min /
+    # max without ties... / unpacking / join) depends on hashes, i.e. on object addresses and PYTHONHASHSEED
+    SETOPS = ("difference", "union", "intersection", "symmetric_difference", "copy")
+    tainted = set()
+
+    def is_set(e):
+        if isinstance(e, (ast.Set, ast.SetComp)):
+            return True
+        if isinstance(e, ast.Call) and isinstance(e.func, ast.Name) and e.func.id in ("set", "frozenset"):
+            return True
+        if isinstance(e, ast.Name):
+            return e.id in tainted
+        if isinstance(e, ast.Call) and isinstance(e.func, ast.Attribute) and e.func.attr in SETOPS and is_set(e.func.value):
+            return True
+        if isinstance(e, ast.BinOp) and isinstance(e.op, (ast.BitOr, ast.BitAnd, ast.Sub, ast.BitXor)) and (is_set(e.left) or is_set(e.right)):
+            return True
+        if isinstance(e, ast.IfExp):
+            return is_set(e.body) or is_set(e.orelse)
+        return False
+    for _ in range(3):      # fixpoint over assignments
+        for n in ast.walk(f.node):
+            if isinstance(n, ast.Assign) and is_set(n.value):
+                for t in n.targets:
+                    if isinstance(t, ast.Name):
+                        tainted.add(t.id)
+            elif isinstance(n, ast.AnnAssign) and n.value is not None and is_set(n.value) and isinstance(n.target, ast.Name):
+                tainted.add(n.target.id)
+    WHY = ("iteration over a set", "set iteration order is unspecified and hash dependent")
+    for n in ast.walk(f.node):
+        if isinstance(n, (ast.For, ast.comprehension)) and is_set(n.iter):
+            found.add(WHY)
+        elif isinstance(n, ast.Call):
+            fn = n.func
+            if isinstance(fn, ast.Name) and fn.id in ("list", "tuple", "iter", "next", "sorted", "enumerate", "zip", "min", "max") \
+                    and any(is_set(a) for a in n.args) and not (fn.id == "sorted" and not n.keywords):
+                # sorted(s) without a key is order-independent; everything else exposes the iteration order
+                found.add(WHY)
+            elif isinstance(fn, ast.Attribute) and fn.attr in ("pop", "join") and (is_set(fn.value) or any(is_set(a) for a in n.args)):
+                found.add(WHY)
+        elif isinstance(n, ast.Starred) and is_set(n.value):
+            found.add(WHY)
+        elif isinstance(n, ast.Assign) and isinstance(n.targets[0], (ast.Tuple, ast.List)) and is_set(n.value):
+            found.add(WHY)
     return found, callees
 
 
